@@ -605,7 +605,7 @@ def run_miri(ctx, emit, bins):
                 if os.path.exists(out):
                     os.remove(out)
                 cmd = ["cargo", "+nightly", "miri", "run", "--offline", "--release", "--no-default-features", "--bin", b, "--",
-                       "--prop", "C09", "--tier", "quick", "--seed", str(ctx.seed + sub), "--scale", "0.01", "--jobs", "1", "--only", g + "/", "--max-rules", "1", "--rule-offset", str(sub * 3),
+                       "--prop", "C09", "--tier", "quick", "--seed", str(ctx.seed + sub), "--scale", "0.01", "--jobs", "1", "--only", g + "/", "--max-rules", "1", "--rule-offset", str(sub * 3), "--max-input-len", "96",
                        "--families", ",".join(ALL_FAMILIES), "--out", out]
                 log = open(os.path.join(ctx.scratch, "C09-miri-%s-%d-%d.log" % (b, k, sub)), "w")
                 procs.append((out, log, cmd, subprocess.Popen(cmd, cwd=os.path.join(ctx.root, HARNESS_DIR), env=env, stdout=log, stderr=subprocess.STDOUT)))
